@@ -71,12 +71,12 @@ class Ctx:
     def state_digest(self):
         sim = self.sim
         nw = sim.network
-        q = sorted((ts, e.event_type, getattr(getattr(e, "ev", None), "session_id", None)) for ts, e in sim.event_queue.queue)
+        q = sorted(((ts, e.event_type, getattr(getattr(e, "ev", None), "session_id", None)) for ts, e in sim.event_queue.queue), key=repr)
         st_ = sim.start
         parts = [(st_.isoformat(), None if st_.utcoffset() is None else st_.utcoffset().total_seconds()), sim.period, sim.max_recompute,
                  sim.iteration, sim.pilot_signals.shape, sim.pilot_signals.tobytes(), sim.charging_rates.tobytes(),
-                 float(sim.peak), q, len(sim.event_history), sorted(sim.ev_history.keys()),
-                 None if sim.schedule_history is None else sorted(sim.schedule_history.keys()),
+                 float(sim.peak), q, len(sim.event_history), sorted(sim.ev_history.keys(), key=repr),
+                 None if sim.schedule_history is None else sorted(sim.schedule_history.keys(), key=repr),
                  [self.station_state(s) for s in nw.station_ids],
                  None if nw.constraint_matrix is None else nw.constraint_matrix.tobytes(), nw.magnitudes.tobytes(),
                  nw._voltages.tobytes(), nw._phase_angles.tobytes(), list(nw.constraint_index), list(nw.station_ids),
